@@ -38,6 +38,7 @@ func init() {
 type Op struct {
 	K     string `json:"k"`               // begin set del get getr keys commit rollback gc reopen burst delburst
 	H     int    `json:"h,omitempty"`     // actor selector: 0 = autocommit, else the (H-1 mod n)-th open transaction
+	Last  bool   `json:"last,omitempty"`  // address the most recently begun transaction that is still open
 	Late  bool   `json:"late,omitempty"`  // C13: address an ended transaction instead of an open one
 	Ghost bool   `json:"ghost,omitempty"` // C13: address a transaction id that never existed
 	Key   int    `json:"key,omitempty"`   // key selector (mod len(keys)); -1 = the empty key; -2 = a never-written key
@@ -343,6 +344,12 @@ func (w *World) pickActor(op Op) (id int, ok bool) {
 		return ended[h%len(ended)], true
 	}
 	open := w.M.OpenTxs()
+	if op.Last {
+		if len(open) == 0 {
+			return 0, op.K != "commit" && op.K != "rollback"
+		}
+		return open[len(open)-1], true
+	}
 	h := op.H
 	if h < 0 {
 		h = -h
